@@ -981,6 +981,17 @@ class GroupBy:
 
         if transform:
             self._unify_group_key_chunks()
+            if func_is_mean:
+                # mean is sum / count per group: divide before broadcasting to the rows
+                with np.errstate(invalid="ignore", divide="ignore"):
+                    result_columns = [
+                        mean_from_sum_count(
+                            pd.Series(sums),
+                            # the count may lack the trailing null-group slot
+                            pd.Series(np.append(n, np.zeros(len(sums) - len(n), dtype=n.dtype))),
+                        ).to_numpy()
+                        for sums, n in zip(result_columns, counts)
+                    ]
             result_columns = [result[self.group_ikey] for result in result_columns]
             if common_index is not None:
                 result_index = common_index
